@@ -8,6 +8,7 @@ import (
 	"flag"
 	"fmt"
 	"os"
+	"os/exec"
 	"path/filepath"
 	"strings"
 	"sync"
@@ -94,11 +95,27 @@ func hasViolation(o *Outcome, class, sig string) bool {
 
 var minimiseTick func()
 
+var (
+	minBudget = 45 * time.Second
+	minSpent  time.Duration
+)
+
 // minimise shrinks a choice trace while the same class+signature persists.
 func minimise(p Prop, trace []int32, class, sig string, deadline time.Time) []int32 {
 	st := newStats()
 	evals := 0
+	external := false
+	if ex, ok := p.(interface{ ExternalMinimise() bool }); ok && ex.ExternalMinimise() {
+		external = true
+	}
 	test := func(t []int32) bool {
+		if external {
+			if evals > 120 || time.Now().After(deadline) {
+				return false
+			}
+			evals++
+			return externalCheck(p.ID(), t, class, sig)
+		}
 		if evals > 4000 || time.Now().After(deadline) {
 			return false
 		}
@@ -167,6 +184,37 @@ func minimise(p Prop, trace []int32, class, sig string, deadline time.Time) []in
 	return cur
 }
 
+// externalCheck re-executes a trace in a fresh worker process and reports
+// whether the same class+signature shows up there.
+func externalCheck(prop string, t []int32, class, sig string) bool {
+	f, err := os.CreateTemp(os.Getenv("VERIF_TMP"), "cand-*.json")
+	if err != nil {
+		return false
+	}
+	defer os.Remove(f.Name())
+	b, _ := json.Marshal(&ReplayFile{Property: prop, Class: class, Signature: sig, Trace: t})
+	f.Write(b)
+	f.Close()
+	cmd := exec.Command(os.Args[0], "-prop", prop, "-replay", f.Name())
+	cmd.Env = os.Environ()
+	done := make(chan error, 1)
+	if err := cmd.Start(); err != nil {
+		return false
+	}
+	go func() { done <- cmd.Wait() }()
+	select {
+	case err := <-done:
+		if ee, ok := err.(*exec.ExitError); ok {
+			return ee.ExitCode() == 1
+		}
+		return false
+	case <-time.After(20 * time.Second):
+		cmd.Process.Kill()
+		<-done
+		return false
+	}
+}
+
 func writeJSON(path string, v interface{}) {
 	b, err := json.MarshalIndent(v, "", " ")
 	if err != nil {
@@ -203,6 +251,7 @@ func main() {
 	budget := flag.Float64("budget-s", 0, "wall-clock cap in seconds (0 = none)")
 	scale := flag.Float64("scale", 1, "scale the number of random runs")
 	skip := flag.String("skip", "", "comma-separated case indexes to skip (fatal in an earlier attempt)")
+	noMin := flag.Bool("no-minimise", false, "do not minimise violations (restarted shards)")
 	stall := flag.Float64("stall-s", 10, "a single case running longer than this is reported as a hang and ends the worker (exit 3)")
 	flag.Parse()
 	skipSet := map[int]bool{}
@@ -380,19 +429,41 @@ func main() {
 			// hang); it needs the lock to report
 			resMu.Unlock()
 			minimiseTick = func() { caseStart.Store(time.Now().UnixNano()); caseNo.Store(int64(i)) }
-			min := minimise(p, trace, v.Class, v.Sig, time.Now().Add(20*time.Second))
+			// minimisation effort is bounded per violation and per worker,
+			// so a tree that breaks the property in many ways still ends
+			// the check in reasonable time
+			per := 20 * time.Second
+			if left := minBudget - minSpent; left < per {
+				per = left
+			}
+			if *noMin {
+				per = 0
+			}
+			t0 := time.Now()
+			min := trace
+			if per > 0 {
+				min = minimise(p, trace, v.Class, v.Sig, time.Now().Add(per))
+			}
+			minSpent += time.Since(t0)
 			minimiseTick()
 			ro := p.Run(verifsim.NewReplay(min), newStats(), true)
 			caseNo.Store(-1)
 			resMu.Lock()
 			rf := &ReplayFile{Property: p.ID(), Class: v.Class, Signature: v.Sig, Detail: v.Detail, Base: *base, Tier: *tier,
-				CaseIndex: i, Trace: min, Minimised: true, OrigLen: len(trace), Rendering: ro.Sample}
+				CaseIndex: i, Trace: min, Minimised: per > 0, OrigLen: len(trace), Rendering: ro.Sample}
 			for _, mv := range ro.V {
 				if mv.Class == v.Class && mv.Sig == v.Sig {
 					rf.Detail = mv.Detail
 				}
 			}
-			if !hasViolation(ro, v.Class, v.Sig) {
+			if ex, ok := p.(interface{ ExternalMinimise() bool }); ok && ex.ExternalMinimise() {
+				// the in-process re-run above only renders; reproduction
+				// was established in fresh processes
+				if per > 0 && !externalCheck(p.ID(), min, v.Class, v.Sig) {
+					rf.Trace, rf.Minimised = trace, false
+					rf.Note = "minimised trace did not reproduce in a fresh process; original trace kept"
+				}
+			} else if !hasViolation(ro, v.Class, v.Sig) {
 				// should not happen: fall back to the unminimised trace
 				rf.Trace, rf.Minimised = trace, false
 				rf.Note = "minimised trace did not reproduce; original trace kept"
@@ -402,6 +473,11 @@ func main() {
 			writeJSON(path, rf)
 			fv.Replay = path
 			fv.Detail = rf.Detail
+		}
+		if o.Poisoned {
+			i++
+			flush(false)
+			os.Exit(4)
 		}
 		resMu.Unlock()
 	}
